@@ -349,13 +349,27 @@ def sibling_ctor(run, p):
     fs = {n: p.fn('tdda.constraints.pd.constraints.' + n) for n in ('verify_df', 'detect_df')}
     kws = {}
     for n, f in fs.items():
-        calls = [x for x in p.own_nodes(f) if isinstance(x, ast.Call) and norm(x.func).split('.')[-1] == 'PandasConstraintVerifier']
+        def ctor_calls_of(g):
+            return [x for x in p.own_nodes(g) if isinstance(x, ast.Call) and norm(x.func).split('.')[-1] == 'PandasConstraintVerifier']
+        calls = [(c_, f, None) for c_ in ctor_calls_of(f)]
+        if not calls:
+            # a set-up helper of the module, shared or not, builds the verifier: the entry point's keywords reach it through the helper's
+            for x, ts, _k in p.calls(f):
+                for g, _ctx in ts:
+                    if g.mod is f.mod and g.cls is None and g is not f and isinstance(x, ast.Call):
+                        calls += [(c_, g, x) for c_ in ctor_calls_of(g)]
         if len(calls) != 1:
             raise AnalysisError('%s constructs %d verifiers' % (n, len(calls)))
-        c = calls[0]
+        c, owner, via = calls[0]
         kws[n] = {k.arg: k.value for k in c.keywords if k.arg}
         for k, v in sorted(kws[n].items()):
-            ok = isinstance(v, ast.Name) and v.id == k and k in f.params
+            ok = isinstance(v, ast.Name) and v.id == k and k in owner.params
+            if ok and via is not None:
+                # and the entry point hands its own parameter of that name to the helper
+                given = {kw.arg: kw.value for kw in via.keywords if kw.arg}
+                pos = dict(zip(owner.posparams, via.args))
+                e = given.get(k, pos.get(k))
+                ok = isinstance(e, ast.Name) and e.id == k and k in f.params
             run.ob('C06-SAMESETUP', '%s::%s::%s=' % (f.rel, n, k), ok, '%s passes %s=%s to the verifier' % (n, k, norm(v)), fn=f, node=c,
                    nontrivial=False)
     a, b = set(kws['verify_df']), set(kws['detect_df'])
